@@ -11,7 +11,10 @@ Three layers of correspondence (K), all executing the REAL stream thread under t
                                            threads running, frames in flight at subscribe / unsubscribe / enable-change /
                                            stop;start time, stalled stream thread, byte-identical consecutive frames, bursts
                                            of > 2000 frames (more than any plausible bound on the stream-frame queue), a
-                                           device that streams a newly enabled channel BEFORE it acknowledges the request; the
+                                           device that streams a newly enabled channel BEFORE it acknowledges the request, a
+                                           repeated `connect()` on the connected handler while subscribed and streaming, single
+                                           stream frames of > 16 KiB, > 32 KiB and of exactly 65535 bytes (the largest the 16-bit
+                                           length field allows) between ordinary ones; the
                                            linearised trace of what happened (arrivals at `_q_stream.put`, iterations at
                                            `_q_stream.get`, calls) is replayed through the model (`fan sys`, events I/T) and
                                            the final queue contents are compared.  The trace is OBSERVED: method wrappers on
@@ -527,7 +530,7 @@ def value_source(rng):
 def gen_session(rng, kind=None):
     """a session script (JSON-able dict)"""
     kind = kind or rng.choice(["mixed", "mixed", "mixed", "inflight", "enabled-at-connect", "stall", "identical", "restart",
-                               "badframe", "enable-race", "enable-race", "long"])
+                               "badframe", "enable-race", "enable-race", "long", "reconnect", "big"])
     n = rng.choice([1, 2, 2, 3, 5, 8])
     types = [rng.choice([2, 3, 4, 6, 7, 9, 10, 11, 12, 15]) for _ in range(n)]
     layout = [(t, rng.choice([1, 1, 2, 3]), rng.choice([0, 0, 1, 2, 4])) for t in types]
@@ -580,8 +583,17 @@ def gen_session(rng, kind=None):
     steps = rng.randrange(4, 14)
     for _ in range(steps):
         r = rng.random()
-        quiet = kind not in ("inflight",) and rng.random() < 0.55
-        if r < 0.40:
+        quiet = kind not in ("inflight",) and (rng.random() < 0.55 or kind == "big")
+        if rng.random() < (0.35 if kind == "reconnect" else 0.04):
+            # a second module that shares the handler "makes sure it is connected": a no-op on a connected handler
+            ev.append(["connect"])
+        if kind == "big" and r < 0.30 and any(dev_en):
+            # ONE stream frame with very many samples of one channel ("zero to many samples per frame"): longer than
+            # 16 KiB, longer than 32 KiB, or as long as the 16-bit length field allows (<= 65535 bytes)
+            c = rng.choice([c for c in range(n) if dev_en[c]])
+            total = rng.choice([rng.randrange(16400, 20000), rng.randrange(32800, 36000), 65535, rng.randrange(60000, 65536)])
+            ev.append(["big", c, big_count(layout, c, total), rng.choice([0, 1000])])
+        elif r < 0.40:
             ev.append(["frames", frames(rng.choice([1, 1, 2, 3, 5]))])
         elif r < 0.52:
             ev.append(["sub", rng.randrange(n)] if rng.random() < 0.9 else ["subneg", rng.randrange(n)])
@@ -592,14 +604,14 @@ def gen_session(rng, kind=None):
             c = rng.randrange(n)
             wn = rng.random() < 0.7
             new[c] = not new[c]
-            if wn and started and new != dev_en and (kind == "enable-race" or rng.random() < 0.15):
+            if wn and started and new != dev_en and kind != "big" and (kind == "enable-race" or rng.random() < 0.15):
                 # the device streams the new configuration between applying the request and acknowledging it
                 ev.append(["arm", frames(rng.choice([1, 1, 2, 3]), new)])
             ev.append(["en" if new[c] else "dis", [c], wn])
             if wn:
                 commit()
         elif r < 0.78:
-            if started and new != dev_en and (kind == "enable-race" or rng.random() < 0.15):
+            if started and new != dev_en and kind != "big" and (kind == "enable-race" or rng.random() < 0.15):
                 ev.append(["arm", frames(rng.choice([1, 1, 2, 3]), new)])
             ev.append(["write"])
             commit()
@@ -685,6 +697,26 @@ def burst_frames(e):
     """["burst", count, [channels], base] -> count frames, frame i carrying one sample (value base + i) of every listed channel"""
     _, count, chs, base = e
     return [{"flags": 0, "smp": [[c, base + i] for c in chs]} for i in range(count)]
+
+
+FRAME_OVERHEAD = 6          # start byte, 16-bit length, frame id; 16-bit checksum
+FRAME_MAX = 65535           # the length field of a frame is 16 bit
+
+
+def sample_size(layout, c):
+    ty, vdim, mlen = layout[c]
+    return 1 + sg.STD[ty][1] * vdim + mlen
+
+
+def big_count(layout, c, total):
+    """the number of samples of channel c in the longest STREAM frame of at most `total` bytes on the wire"""
+    return (min(total, FRAME_MAX) - FRAME_OVERHEAD - 1) // sample_size(layout, c)
+
+
+def big_frame(e):
+    """["big", chan, count, base] -> ONE frame carrying `count` samples (values base, base + 1, ...) of channel chan"""
+    _, c, count, base = e
+    return {"flags": 0, "smp": [[c, base + i] for i in range(count)]}
 
 
 def run_session(script, preempt_seed=None):
@@ -796,11 +828,16 @@ def run_session(script, preempt_seed=None):
 
         for e in script["events"]:
             k = e[0]
-            if k in ("frames", "burst"):
-                for fr in (e[1] if k == "frames" else burst_frames(e)):
+            if k in ("frames", "burst", "big"):
+                for fr in (e[1] if k == "frames" else burst_frames(e) if k == "burst" else [big_frame(e)]):
                     payload, smp = session_payload(layout, fr)
+                    if len(payload) + FRAME_OVERHEAD > FRAME_MAX:
+                        raise ValueError(f"script asks for a frame of {len(payload) + FRAME_OVERHEAD} bytes")
                     sent.append({"payload": payload, "smp": smp, "t": tick(), "vt": sim.now, "flags": fr["flags"]})
                     dev._send(refdev.STREAM, payload)
+            elif k == "connect":
+                # connect() on the connected handler (documented no-op); the stream keeps running, nothing is unsubscribed
+                call("connect-again", None, nx.connect)
             elif k == "raw":
                 sent.append({"payload": bytes.fromhex(e[1]), "smp": None, "t": tick(), "vt": sim.now, "flags": 0})
                 dev._send(refdev.STREAM, bytes.fromhex(e[1]))
@@ -1001,7 +1038,8 @@ def session_oracle(script, res):
     for q, (c, sb, se) in enumerate(subs):
         ub, ue = unsubs.get(q, (float("inf"), float("inf")))
         cand = []      # (label, item) of every sample of channel c the device sent, in order
-        for fr in res["sent"]:
+        src = []       # per candidate: number of the stream frame that carried it
+        for fno, fr in enumerate(res["sent"]):
             if fr["smp"] is None:
                 continue
             ts = fr["t"]
@@ -1024,6 +1062,7 @@ def session_oracle(script, res):
                     else:
                         lab = "may"
                 cand.append((lab, item))
+                src.append(fno)
         got = res["delivered"][q]
         musts = [it for lab, it in cand if lab == "must"]
         # increasing matching of `got` into `cand`: every must used, no not used, equal values.  Certain ends first (a
@@ -1062,6 +1101,14 @@ def session_oracle(script, res):
         if not fits:
             p = next((i for i in range(min(len(got), len(musts))) if got[i] != musts[i]), min(len(got), len(musts)))
             lo = max(0, p - 3)
+            must_src = [f for (lab, _), f in zip(cand, src) if lab == "must"]
+            where = ""
+            if p < len(must_src):
+                fr = res["sent"][must_src[p]]
+                calls = [kind for kind, _, t0, _, _ in tl if t0 < fr["t"] and kind not in ("applied", "quiesce")]
+                where = (f"  That certain sample was sent in stream frame #{must_src[p]} of the session: "
+                         f"{len(fr['payload']) + FRAME_OVERHEAD} bytes on the wire, {len(fr['smp'])} samples, flags {fr['flags']}; "
+                         f"calls made before it: {calls[-12:]}.")
             return {"key": "session-delivery",
                     "what": f"queue {q} (channel {c}, subscribed at step {se}"
                             + (f", unsubscribed at step {ub}" if ub != float("inf") else "")
@@ -1069,7 +1116,7 @@ def session_oracle(script, res):
                             f"them 'must' (sent, subscribed, enabled and processed-by-quiesce for certain; 'not' = certainly not "
                             f"subscribed / not enabled): there is no in-order, duplicate-free assignment of the received samples "
                             f"to the sent ones that uses every 'must' and no 'not'.  First deviation from the certain run at "
-                            f"position {p}: received {got[lo:p + 4]}, certain {musts[lo:p + 4]}.  Received (head) {got[:30]}; "
+                            f"position {p}: received {got[lo:p + 4]}, certain {musts[lo:p + 4]}.{where}  Received (head) {got[:30]}; "
                             f"sent (head) {[(lab, it) for lab, it in cand][:40]}",
                     "expected": str(musts[lo:lo + 40])[:500], "observed": str(got[lo:lo + 40])[:500]}
     if res["stream_threads"] > 1:
@@ -1149,7 +1196,27 @@ OVF_EMPTY_SCRIPT = {"kind": "identical", "layout": [U32, U32], "init": [True, Tr
     ["frames", [{"flags": 0, "smp": [[0, 1], [1, 50], [0, 2]]}, {"flags": 1, "smp": [[0, 3]]}, {"flags": 0, "smp": []},
                 {"flags": 0, "smp": [[1, 51], [1, 52]]}, {"flags": 1, "smp": []}, {"flags": 0, "smp": [[0, 4], [1, 53], [0, 5]]},
                 {"flags": 0, "smp": [[0, 6]]}]], ["quiesce"]]}
-FIXED_SCRIPTS = [R3M1_SCRIPT, R3M2_SCRIPT, BACKLOG_SCRIPT, ENRACE_SCRIPT, OVF_EMPTY_SCRIPT, LONG_SCRIPT, LONG2_SCRIPT]
+# connect() again on the connected handler while two queues are subscribed and the stream runs (C08-r5m1): nothing was
+# stopped, nothing was unsubscribed, so every sample sent afterwards still reaches the old queues; a later unsubscribe works
+RECONNECT_SCRIPT = {"kind": "reconnect", "layout": [(5, 1, 0), (5, 1, 0)], "init": [False, False], "flags": 3, "small": False, "events": [
+    ["sub", 0], ["sub", 0], ["en", [0, 1], False], ["start"], ["frames", [{"flags": 0, "smp": [[0, 1], [0, 2], [0, 3]]}]], ["quiesce"],
+    ["connect"], ["sub", 1], ["frames", [{"flags": 0, "smp": [[0, 4], [0, 5], [0, 6]]}, {"flags": 0, "smp": [[0, 7], [0, 8], [0, 9]]},
+                                         {"flags": 0, "smp": [[1, 11]]}]], ["quiesce"],
+    ["connect"], ["unsub", 0], ["sub", 0], ["frames", [{"flags": 0, "smp": [[0, 10], [1, 12]]}]], ["quiesce"]]}
+# single stream frames of 18007 bytes (6000 INT16 samples, > 16 KiB), 35007 bytes (7000 UINT32 samples, > 32 KiB) and 65535
+# bytes (32764 UINT8 samples: the largest frame the 16-bit length field allows) between ordinary frames (C08-r5m2)
+BIG_SCRIPT = {"kind": "big", "layout": [(5, 1, 0), U32, (2, 1, 0)], "init": [False, True, False], "flags": 3, "small": False, "events": [
+    ["sub", 0], ["sub", 1], ["sub", 2], ["sub", 2], ["en", [0, 2], False], ["start"],
+    ["frames", [{"flags": 0, "smp": [[0, 1], [0, 2], [0, 3]]}]], ["big", 0, 6000, 1000], ["frames", [{"flags": 0, "smp": [[0, 4], [1, 5], [0, 6]]}]],
+    ["quiesce"],
+    ["big", 1, 7000, 2000], ["frames", [{"flags": 0, "smp": [[1, 7], [2, 8]]}]], ["quiesce"],
+    ["big", 2, 32764, 0], ["frames", [{"flags": 1, "smp": [[2, 9], [0, 10], [1, 11]]}]], ["quiesce"]]}
+BIG_CHUNKED_SCRIPT = dict(BIG_SCRIPT, chunk_seed=508, events=[
+    ["sub", 0], ["sub", 1], ["en", [0], False], ["start"],
+    ["frames", [{"flags": 0, "smp": [[1, 1]]}]], ["big", 1, 13105, 1000], ["big", 0, 5460, 0],
+    ["frames", [{"flags": 0, "smp": [[0, 2], [1, 3]]}]], ["quiesce"]])
+FIXED_SCRIPTS = [R3M1_SCRIPT, R3M2_SCRIPT, BACKLOG_SCRIPT, ENRACE_SCRIPT, OVF_EMPTY_SCRIPT, LONG_SCRIPT, LONG2_SCRIPT,
+                 RECONNECT_SCRIPT, BIG_SCRIPT, BIG_CHUNKED_SCRIPT]
 
 
 # ----------------------------------------------------------------------- schedules: concurrent unsubscribe
@@ -1271,7 +1338,8 @@ class C08(Prop):
             "overflow counter, thread-dead flag, frames still waiting and raising calls compared with the model. "
             "B: the same with real payloads over random layouts (18 standard types, user types, vdim, mlen). "
             "C (extra_checks): whole sessions against the reference device (incl. bursts of > 2000 frames, a device streaming a "
-            "newly enabled channel before its ACK), trace observed on the library's own objects and replayed through the model. "
+            "newly enabled channel before its ACK, connect() repeated on the connected handler while subscribed and streaming, "
+            "single frames of 18007 / 35007 / 65532 / 65535 bytes between ordinary ones, whole or in random chunks), trace observed on the library's own objects and replayed through the model. "
             "D (extra_checks): pre-emptive schedules, unsubscribe / subscribe while a frame is being delivered, judged at the "
             "subscriber queues after stream_unsub returned. "
             "distinct = distinct line; non-trivial = history with at least one delivered group")
